@@ -188,7 +188,7 @@ const CONTENT_SPECS: &[&str] =
 const TEXT_CHARS: &[&str] =
     &["a", "b", "z", "0", "1", " ", "\t", "\n", "<", "&", ">", "\"", "'", "]", "]]>", "\u{e9}", "\u{1F600}", "e\u{301}", "-", ";", "#", "\u{2028}", "\u{a0}"];
 const XPATH_TEXTS: &[&str] = &["", "1", "2", "10", " 3 ", "x", "abc", "-0.5", "1e2", "a b", "\u{e9}", "07", "  ", "true", "NaN"];
-const ATTR_TEXT_CHARS: &[&str] = &["a", "b", "0", "1", " ", " ", "\t", "\n", ">", "\"", "'", "]", "\u{e9}", "\u{1F600}", "-", "x y", "  "];
+const ATTR_TEXT_CHARS: &[&str] = &["a", "b", "0", "1", " ", " ", "\t", "\n", ">", "\"", "'", "]", "\u{e9}", "\u{1F600}", "-", "x y", "  ", "]]>", "]]"];
 const CHARREF_CHARS: &[char] = &[' ', '\t', '\n', 'A', '\u{e9}', '>', '"', '\'', '<', '&', '\u{1F600}', '%', ']'];
 const ENTVAL_TEXT_CHARS: &[&str] = &["a", "b", "1", " ", "\t", "\n", ">", "\"", "'", "\u{e9}", "]", "x y"];
 const ENTVAL_CHARREF_CHARS: &[char] = &[' ', '\t', '\n', 'A', '\u{e9}', '>', '"', '\'', '%'];
